@@ -38,6 +38,7 @@ func (m *Machine) timeNow() Value {
 	m.pc = append(m.pc, c.Cmp(OSLe, c.BV(0, 64), t))
 	m.pc = append(m.pc, c.Cmp(OSLe, t, c.BV(1<<62, 64)))
 	m.clock = t
+	m.ghost["clock.last"] = t
 	return m.mkTime(t, nil)
 }
 
